@@ -10,6 +10,8 @@ from ..core import AnalysisError, FUNC, call_attr, calls_in, const, dotted, is_c
 from .c01 import field_rules
 
 EXPLANATION = [
+    'C18.avdtp-start-layout: avdtp: the assembler reads the signal identifier and the packet count of a START packet at the octet indices at which Protocol.send_message writes them.',
+    'C18.no-constructor-range: data types of bumble.data_types whose from_bytes passes struct.unpack results to the constructor have no raising constructor / __post_init__ (every value of the field widths is representable).',
     'C18.padding-agreement: a from_bytes that strips padding off its input (rstrip / lstrip) has a serialiser that pads on the same side (ljust / rjust); no two-sided strip().',
     'C18.typeless-address: an address-valued AD structure whose from_bytes builds Address(data) without a type assigns a constant address type in its constructor.',
     'C18.subunit-form: avc.Frame.to_bytes writes the one-byte subunit address under the same test (`subunit_id < 5 or subunit_id == 7`) under which from_bytes reads it, and has the extended forms for the rest.',
@@ -996,7 +998,53 @@ def padding_agreement(ctx):
     R.check(n >= 1 and len(k) == 1, rule, 'codec modules | parsers that remove padding', f'{n} site(s), each with a padding serialiser (positive control matched)', f'{n} sites found')
 
 
+def no_constructor_range(ctx):
+    """A data type whose from_bytes hands fixed-width integers straight to the constructor accepts every value of those
+    widths: its constructor does not raise on a range check (sentinels such as 0xFFFF = "no specific value" are
+    well-formed on the wire)."""
+    R, p = ctx.r, ctx.p
+    rule = 'C18.no-constructor-range'
+    n = 0
+    for cn, ci in sorted(p.classes.items()):
+        if not cn.startswith('bumble.data_types.'):
+            continue
+        fb = ci.methods.get('from_bytes')
+        if fb is None or not any(isinstance(c, ast.Call) and (dotted(c.func) or '').startswith('struct.unpack') for c in ast.walk(fb)):
+            continue
+        n += 1
+        for ctor in [ci.methods.get('__post_init__'), ci.methods.get('__init__')]:
+            if ctor is None:
+                continue
+            rs = [x for x in walk_local(ctor) if isinstance(x, ast.Raise)]
+            R.check(not rs, rule, f'{cn}.{ctor.name}', 'no validation that rejects values', f'{ci.name}.{ctor.name} raises on some values of its fixed-width fields: a structure carrying them (a sentinel like 0xFFFF) can neither be built nor parsed, although it is well-formed', p.loc(rs[0]) if rs else p.loc(ctor))
+    R.check(n >= 1, rule, 'bumble.data_types | fixed-width structures', f'{n} classes', f'only {n} found')
+
+
+def avdtp_start_layout(ctx):
+    """The two halves of the AVDTP fragmentation codec agree on the START packet header: the sender writes
+    [header, signal identifier, packet count]; the assembler reads the signal identifier and the count at those indices."""
+    R, p = ctx.r, ctx.p
+    rule = 'C18.avdtp-start-layout'
+    snd = p.find('bumble.avdtp.Protocol.send_message')
+    rcv = p.find('bumble.avdtp.MessageAssembler.on_pdu')
+    if snd is None or rcv is None:
+        R.bad(rule, 'bumble.avdtp.Protocol.send_message / MessageAssembler.on_pdu', 'anchor missing')
+        return
+    lists = [c.args[0] for c in ast.walk(snd) if isinstance(c, ast.Call) and dotted(c.func) == 'bytes' and c.args and isinstance(c.args[0], ast.List) and len(c.args[0].elts) == 3]
+    if len(lists) != 1:
+        R.bad(rule, 'bumble.avdtp.Protocol.send_message | START header', f'{len(lists)} three-octet headers (anchor)', p.loc(snd))
+        return
+    elts = [norm(e) for e in lists[0].elts]
+    i_sig = next((i for i, e in enumerate(elts) if 'signal_identifier' in e), None)
+    i_cnt = next((i for i, e in enumerate(elts) if 'count' in e), None)
+    sig_reads = sorted({const(s_.slice) for st in walk_local(rcv) if isinstance(st, ast.Assign) and dotted(st.targets[0]) == 'self.signal_identifier' for s_ in ast.walk(st.value) if isinstance(s_, ast.Subscript) and dotted(s_.value) == 'pdu' and is_const(s_.slice)})
+    cnt_reads = sorted({const(s_.slice) for st in walk_local(rcv) if isinstance(st, ast.Assign) and dotted(st.targets[0]) == 'self.number_of_signal_packets' for s_ in ast.walk(st.value) if isinstance(s_, ast.Subscript) and dotted(s_.value) == 'pdu' and is_const(s_.slice)})
+    R.check(sig_reads == [i_sig] and cnt_reads == [i_cnt], rule, 'bumble.avdtp | START packet header', f'signal identifier at {i_sig}, packet count at {i_cnt} on both sides', f'the sender writes the signal identifier at octet {i_sig} and the count at octet {i_cnt}, the assembler reads them at {sig_reads} and {cnt_reads}: a fragmented message is reassembled with the wrong identifier / count and never delivered', p.loc(rcv))
+
+
 RULES = [
+    ('C18.avdtp-start-layout', avdtp_start_layout),
+    ('C18.no-constructor-range', no_constructor_range),
     ('C18.padding-agreement', padding_agreement),
     ('C18.typeless-address', typeless_address),
     ('C18.subunit-form', subunit_form),
